@@ -28,7 +28,10 @@ Oracle (everything below is written here and shares no code with
   weighted mean of one (the rule stated in the GammaDefn docstring); "free"
   rate bins: cumulative increments scaled the same way; the same two rules give
   the per-bin factors when the bins are declared on a model parameter
-  (``ordered_param="kappa"`` etc.): value on (edge, bin) = value on the edge x factor of the bin.
+  (``ordered_param="kappa"`` etc.): value on (edge, bin) = value on the edge x factor of the bin;
+* trees of hundreds of tips (sub-check ``bigtree``): the same recursion with every
+  partial-likelihood row divided by its maximum at each node and the logs of the divisors
+  carried alongside, so the oracle is exact where a column likelihood is below the double range.
 """
 
 from __future__ import annotations
@@ -57,7 +60,13 @@ RULE = (
     "of every edge, the per-column likelihoods and lnL. The normalisation sub-checks supply every possible column (4^n for n = 2-4 tips; 16^n and 20^n for n = 2-3; all "
     "pairs of sense codons for 2 tips; named and generated models, any configuration) and require the per-column likelihoods to sum to one. Non-trivial = unequal motif "
     "probabilities, at least one degenerate symbol and at least one of polytomy, per-edge scope, bins, non-reversible model (normalisation sub-checks: unequal motif "
-    "probabilities and one of those four). Distinct = distinct case encodings."
+    "probabilities and one of those four). Distinct = distinct case encodings. Sub-check bigtree: trees of 500-900 tips (nucleotide models HKY85 / GTR / TN93 / F81 / JC69 / GN / ssGN; up "
+    "to 1500 in the thorough tier) and 150-400 tips (empirical protein models; up to 600) built from a compact recipe (group sizes 2-4 cycled round by round over adjacent nodes, "
+    "an optional comb of 5-40 tips, root degree 2-4, 1-4 distinct branch lengths log-uniform in [1e-3, 1.6] assigned by a repeating pattern), 1-4 columns given by a motif of 1-6 "
+    "symbols (an eighth degenerate) laid out along the tips as runs, cyclically or sparsely (every 5th-61st tip deviates), plain or 2-3 gamma rate bins; the harness prunes in the "
+    "log domain with per-node rescaling and compares one substitution matrix per distinct length and bin, lnL (1e-9 relative) and the column likelihoods a double can hold. About a "
+    "third of the cases have a column whose likelihood is below 1e-300: there the statement still fixes lnL, a disagreement is reported under the single signature "
+    "C02/bigtree/lnL[column-likelihood-underflows-double]."
 )
 ASSUMPTIONS = [
     "continuous-time models only (the discrete-time BH / DT entries of cogent3.evolve.models.models are outside the statement)",
@@ -92,6 +101,12 @@ ASSUMPTIONS = [
     "generated codon models add overlapping predicates (predefined ones, CpG, a conjunction): the harness evaluates its own predicate functions on every instantaneous change and, "
     "when a predicate holds nowhere / everywhere or the indicator vectors (with the all-ones vector) are linearly dependent, a ValueError from the constructor is the documented "
     "outcome and the case ends there; otherwise the constructor must succeed",
+    "bigtree: 'for any tree' is read as including trees whose per-column likelihood is smaller than the smallest double (the statement is about the reported LOG-likelihood, which is "
+    "representable): lnL must equal the log-domain oracle there too. get_full_length_likelihoods returns plain likelihoods, which cannot hold such values, so column likelihoods are "
+    "only compared for columns whose oracle likelihood is >= 1e-300 (above that no subnormal intermediate matters: an entry lost to underflow changes a column likelihood by at most "
+    "nodes x states x 5e-324). Every lnL disagreement of a case holding a column below 1e-300 carries the tag [column-likelihood-underflows-double], whatever the model or configuration",
+    "bigtree: branch lengths are set with set_param_rule('length', edges=[...]) once per distinct length in use (an empty edge list means every edge, so unused lengths are skipped); "
+    "the reported substitution matrix is compared for the first edge of every distinct (length, bin) only; tolerances as for the small trees (computed allowance L(P + delta) - L(P) in the log domain)",
 ]
 
 NUCS = "ACGT"
@@ -1258,6 +1273,311 @@ def _q_circumstance(space, pi_kind, x, y, pars, user, gc=None):
     return "predicates:" + ("&".join(hold) if hold else "none")
 
 
+# ------------------------------------------------------------------ many tips
+# Trees of hundreds of tips: the case holds a compact recipe (every choice is drawn by Hypothesis, the tree, the branch
+# lengths and the columns are deterministic functions of it).  The oracle prunes in the log domain (every partial
+# likelihood row is divided by its maximum after each node, the logs of the divisors are carried alongside), so it stays
+# exact where a column likelihood is far below the smallest double.
+BIG_NUC_MODELS = ["HKY85", "HKY85", "GTR", "TN93", "F81", "GN", "ssGN", "JC69"]
+BIG_PROTEIN_MODELS = ["JTT92", "JTT92", "WG01", "DSO78", "AH96", "AH96_mtmammals"]
+LOG_DOUBLE_SAFE = math.log(1e-300)  # column likelihoods above this are computed without any subnormal intermediate that matters
+UNDERFLOW_TAG = "[column-likelihood-underflows-double]"
+
+
+def big_tree(ntips, arity, ladder, root_deg, lengths, len_pattern):
+    """nested-dict tree from a recipe: the first ``ladder`` tips form a comb, then adjacent nodes are joined round by round
+    in groups whose sizes cycle through ``arity`` until at most ``root_deg`` nodes remain; edge k (creation order, tips
+    first) has length lengths[len_pattern[k % len(len_pattern)]]"""
+    count = [0]
+
+    def ln():
+        v = lengths[len_pattern[count[0] % len(len_pattern)]]
+        count[0] += 1
+        return v
+
+    nodes = [{"name": f"t{i}", "len": ln(), "kids": []} for i in range(ntips)]
+    k = 0
+    if ladder >= 2:
+        comb = nodes[0]
+        for nd in nodes[1:ladder]:
+            comb = {"name": f"n{k}", "len": ln(), "kids": [comb, nd]}
+            k += 1
+        nodes = [comb] + nodes[ladder:]
+    g = 0
+    while len(nodes) > root_deg:
+        if len(nodes) <= 4:
+            nodes = [{"name": f"n{k}", "len": ln(), "kids": nodes[:2]}] + nodes[2:]
+            k += 1
+            continue
+        nxt = []
+        i = 0
+        while i < len(nodes):
+            size = arity[g % len(arity)]
+            g += 1
+            grp = nodes[i : i + size]
+            i += size
+            if len(grp) == 1:
+                nxt.append(grp[0])
+            else:
+                nxt.append({"name": f"n{k}", "len": ln(), "kids": grp})
+                k += 1
+        nodes = nxt
+    return {"name": "root", "len": None, "kids": nodes}
+
+
+def big_column(col, ntips):
+    """symbol of every tip: runs of equal symbols (block), the motif repeated along the tips (cycle), or the first symbol
+    everywhere except at every period-th tip, which takes the other symbols in turn (sparse)"""
+    motif, kind = col["motif"], col["kind"]
+    m = len(motif)
+    if kind == "block":
+        return [motif[(i * m) // ntips] for i in range(ntips)]
+    if kind == "cycle" or m == 1:
+        return [motif[i % m] for i in range(ntips)]
+    period = col["period"]
+    return [motif[1 + (i // period) % (m - 1)] if i % period == 0 else motif[0] for i in range(ntips)]
+
+
+def prune_log(tree, leafvec, P, root_pi):
+    """log of the per-column likelihoods, pruning with per-node rescaling"""
+    import numpy
+
+    def partial(nd):
+        if not nd["kids"]:
+            m = leafvec[nd["name"]]
+            return m, numpy.zeros(m.shape[0])
+        out, logscale = None, 0.0
+        for k in nd["kids"]:
+            m, ls = partial(k)
+            up = m @ P[k["name"]].T
+            out = up if out is None else out * up
+            logscale = logscale + ls
+        mx = out.max(axis=1)
+        return out / mx[:, None], logscale + numpy.log(mx)
+
+    m, ls = partial(tree)
+    return numpy.log(m @ root_pi) + ls
+
+
+@st.composite
+def _big_symbol(draw, space):
+    S = list(NUCS) if space == "nuc" else list(AAS)
+    if draw(st.integers(0, 7)) > 0:
+        return draw(st.sampled_from(S))
+    return draw(st.sampled_from(list(NUC_DEGEN) if space == "nuc" else ["X", "-", "?", "B", "Z"]))
+
+
+def _big_case(tier):
+    thorough = tier == "thorough"
+
+    @st.composite
+    def build(draw):
+        space = draw(st.sampled_from(["nuc", "protein"]))
+        if space == "nuc":
+            name = draw(st.sampled_from(BIG_NUC_MODELS))
+            ntips = draw(st.integers(500, 1500 if thorough else 900))
+        else:
+            name = draw(st.sampled_from(BIG_PROTEIN_MODELS))
+            ntips = draw(st.integers(150, 600 if thorough else 400))
+        pars, _pi_kind, root_kind, equal, _nonrev = model_layout(name, None, space)
+        arity = draw(st.sampled_from([[2], [2], [2, 3], [3], [2, 2, 4], [3, 2], [4, 2, 2, 2]]))
+        nlen = draw(st.integers(1, 4))
+        # short branches (a column likelihood stays inside the double range) or ordinary ones (it does not)
+        hi = draw(st.sampled_from([-2.0, -1.0, -0.5, -0.3, 0.0, 0.2]))
+        lengths = [min(10.0, max(1e-6, _sig(10.0 ** draw(st.floats(-3.0, hi))))) for _ in range(nlen)]
+        case = {
+            "model": name,
+            "space": space,
+            "ntips": ntips,
+            "arity": arity,
+            "ladder": draw(st.sampled_from([0, 0, 0, 5, 20, 40])),
+            "root_deg": draw(st.sampled_from([2, 3, 3, 4])),
+            "lengths": lengths,
+            "len_pattern": [draw(st.integers(0, nlen - 1)) for _ in range(draw(st.integers(1, 7)))],
+            "params": {p: draw(_rate_value()) for p in pars},
+            "mprobs": draw(_probs(mprob_keys(space, root_kind), equal)),
+        }
+        cols = []
+        for _ in range(draw(st.integers(1, 4))):
+            m = draw(st.sampled_from([1, 2, 2, 3, 3, 4, 5, 6]))
+            col = {"motif": [draw(_big_symbol(space)) for _ in range(m)], "kind": draw(st.sampled_from(["block", "cycle", "sparse", "sparse"]))}
+            if col["kind"] == "sparse":
+                col["period"] = draw(st.sampled_from([5, 7, 13, 29, 61]))
+            cols.append(col)
+        case["columns"] = cols
+        case["config"] = draw(st.sampled_from(["plain", "gamma"]))
+        if case["config"] == "gamma":
+            nb = draw(st.integers(2, 3))
+            case["bins"] = {"n": nb, "bprobs": draw(_bprobs(nb)), "shape": _sig(10.0 ** draw(st.floats(-1.0, 1.3)))}
+        case["expm"] = draw(st.sampled_from([None, None, "pade"]))
+        case["array_align"] = draw(st.booleans())
+        return case
+
+    return build()
+
+
+def execute_big(case) -> Soft:
+    import numpy
+    from scipy.linalg import expm
+
+    s = Soft("C02/bigtree/")
+    name, space, ntips = case["model"], case["space"], case["ntips"]
+    S = states_of(space)
+    n = len(S)
+    pars, pi_kind, root_kind, equal, nonrev = model_layout(name, None, space)
+    tree = big_tree(ntips, case["arity"], case["ladder"], case["root_deg"], case["lengths"], case["len_pattern"])
+    edges = m_edges(tree)
+    tips = m_tips(tree)
+    bins = case.get("bins")
+    nb = bins["n"] if bins else 1
+    bin_names = [f"bin{i}" for i in range(nb)] if bins else [None]
+    config = case["config"]
+    rows = {t: [] for t in tips}
+    for col in case["columns"]:
+        for t, symb in zip([f"t{i}" for i in range(ntips)], big_column(col, ntips)):
+            rows[t].append(symb)
+    ncol = len(case["columns"])
+
+    # ---------------------------------------------------------------- real
+    ok, sm = s.call("model", _get_sm, case)
+    if not ok:
+        return s
+
+    def mk_lf():
+        from cogent3 import make_aligned_seqs, make_tree
+
+        rtree = make_tree(m_newick(tree))
+        lf = sm.make_likelihood_function(rtree, **({"bins": nb} if bins else {}))
+        with lf.updates_postponed():
+            for ln in sorted({v for _, v, _ in edges}):  # only lengths in use (an empty edge list would mean every edge)
+                lf.set_param_rule("length", edges=[e for e, v, _ in edges if v == ln], value=ln, is_constant=True)
+            for p in pars:
+                lf.set_param_rule(p, value=case["params"][p], is_constant=True)
+            if case["mprobs"] is not None:
+                lf.set_motif_probs(dict(case["mprobs"]), is_constant=True)
+            if bins:
+                lf.set_param_rule("bprobs", value=numpy.array(bins["bprobs"], float), is_constant=True)
+                lf.set_param_rule("rate_shape", value=bins["shape"], is_constant=True)
+            if case.get("expm"):
+                lf.set_expm(case["expm"])
+        aln = make_aligned_seqs({t: "".join(rows[t]) for t in tips}, moltype="protein" if space == "protein" else "dna", array_align=bool(case["array_align"]))
+        lf.set_alignment(aln)
+        return lf
+
+    ok, lf = s.call("make_likelihood_function", mk_lf)
+    if not ok:
+        return s
+
+    # ---------------------------------------------------------------- model
+    mkeys = mprob_keys(space, root_kind)
+    mp = case["mprobs"] if case["mprobs"] is not None else {k: 1.0 / len(mkeys) for k in mkeys}
+    unequal_pi = len({round(v, 12) for v in mp.values()}) > 1
+    root_pi = word_probs(space, pi_kind, mp, None, root_kind)
+    prot_S = None
+    if space == "protein":
+        prot_S = _protein_table(name, [str(m) for m in sm.get_motifs()])
+    preds = [(predicate_for(p), case["params"][p]) for p in pars]
+    Q = build_Q(space, pi_kind, mp, preds, prot_S, None, root_kind)
+    brates = gamma_rates(bins["shape"], bins["bprobs"]) if bins else [1.0]
+    bprobs = bins["bprobs"] if bins else [1.0]
+    evals = 0
+    # one substitution matrix per distinct (length, bin); the reported one is compared on the first edge of that length
+    Pl = {}
+    first_edge = {}
+    for ename, ln, _ in edges:
+        first_edge.setdefault(ln, ename)
+    for b in range(nb):
+        for ln, ename in first_edge.items():
+            Pe = expm(Q * (ln * float(brates[b])))
+            Pl[(ln, b)] = Pe
+            bkw = {"bin": bin_names[b]} if bins else {}
+            ok, gp = s.call("get_psub_for_edge", lambda: lf.get_psub_for_edge(ename, **bkw))
+            if ok:
+                ok2, G = s.call("get_psub_for_edge/to_dict", _dictarray, gp, S)
+                if ok2:
+                    err = numpy.abs(G - Pe)
+                    s.notes["dP"] = max(s.notes.get("dP", 0.0), float(err.max()))
+                    if not (err <= 2e-9).all():
+                        i, j = numpy.unravel_index(int(numpy.argmax(err)), err.shape)
+                        s.fail(f"psub/{name}" + ("/bins" if bins else ""), f"{name} edge {ename} length {ln} bin {b}: P[{S[i]}->{S[j]}] got {float(G[i, j])!r} want {float(Pe[i, j])!r}")
+                    evals += 1
+    compat_cache = {}
+    sidx = {x: i for i, x in enumerate(S)}
+    leafvec = {}
+    for t in tips:
+        m = numpy.zeros((ncol, n))
+        for c, symb in enumerate(rows[t]):
+            if symb not in compat_cache:
+                compat_cache[symb] = [sidx[x] for x in compatible(space, symb)]
+            m[c, compat_cache[symb]] = 1.0
+        leafvec[t] = m
+    # floating-point allowance as in execute(): the effect of an entrywise error delta in every P, computed, not guessed
+    delta = 2.0 * max(1e-15, min(s.notes.get("dP", 0.0), 2e-9))
+    logs, logs_hi = [], []
+    for b in range(nb):
+        P = {ename: Pl[(ln, b)] for ename, ln, _ in edges}
+        logs.append(prune_log(tree, leafvec, P, root_pi) + math.log(bprobs[b]))
+        logs_hi.append(prune_log(tree, leafvec, {e: M + delta for e, M in P.items()}, root_pi) + math.log(bprobs[b]))
+    logcol = numpy.logaddexp.reduce(numpy.array(logs), axis=0)
+    logcol_hi = numpy.logaddexp.reduce(numpy.array(logs_hi), axis=0)
+    slack_rel = numpy.expm1(logcol_hi - logcol)  # relative allowance per column
+    total = float(logcol.sum())
+    slack_total = float(slack_rel.sum())
+    underflow = bool(float(logcol.min()) < LOG_DOUBLE_SAFE)
+    s.notes["lnL_oracle"] = total
+    s.notes["min_logcol"] = float(logcol.min())
+
+    # ---------------------------------------------------------------- compare
+    poly = m_polytomy(tree)
+    circ = config + "+" + ("polytomy" if poly else "binary")
+    ok, lnL = s.call("lnL", lambda: lf.lnL)
+    if ok:
+        s.notes["dlnL"] = abs(float(lnL) - total) / max(1.0, abs(total)) if math.isfinite(float(lnL)) else float("inf")
+        # a column whose likelihood is below the double range: one root cause, one signature
+        sig = "lnL" + UNDERFLOW_TAG if underflow else f"lnL/{name}/{circ}"
+        s.close(lnL, total, sig, f"{name} {ntips} tips, {ncol} columns, smallest column log-likelihood {float(logcol.min()):.2f}, config {config}", rtol=1e-9, atol=2.0 * slack_total)
+        evals += 1
+    ok, fl = s.call("get_full_length_likelihoods", lambda: lf.get_full_length_likelihoods())
+    if ok:
+        try:
+            fl = [float(x) for x in fl]
+        except Exception as e:  # noqa: BLE001
+            s.fail("get_full_length_likelihoods/shape", f"{type(e).__name__}: {e}")
+            fl = None
+        if fl is not None and s.eq(len(fl), ncol, "get_full_length_likelihoods/length", name):
+            # only columns whose likelihood a double can hold (the array cannot report the others; lnL could)
+            bad = []
+            for c, g in enumerate(fl):
+                if logcol[c] < LOG_DOUBLE_SAFE:
+                    continue
+                w = math.exp(float(logcol[c]))
+                if not abs(g - w) <= w * (1e-9 + 2.0 * float(slack_rel[c]) + 4e-16 * abs(float(logcol[c]))):
+                    bad.append((c, g, w))
+            if bad:
+                s.fail(f"column-likelihood/{name}/{circ}", f"{name} {ntips} tips column {bad[0][0]} {case['columns'][bad[0][0]]}: got {bad[0][1]!r} want {bad[0][2]!r} ({len(bad)} of {ncol} columns differ)")
+            evals += 1
+
+    # ---------------------------------------------------------------- classes
+    degenerate = any(len(compat_cache[x]) > 1 for x in compat_cache)
+    s.cls(f"model:{name}", f"config:{config}", f"root-degree:{len(tree['kids'])}", "polytomy" if poly else "binary")
+    s.cls("tips:150-400" if ntips <= 400 else "tips:401-900" if ntips <= 900 else "tips:901+")
+    s.cls("column-likelihood-below-double-range" if underflow else "column-likelihoods-in-double-range")
+    if case["ladder"]:
+        s.cls("comb-part")
+    if degenerate:
+        s.cls("degenerate-symbols")
+    if unequal_pi:
+        s.cls("unequal-pi")
+    if nonrev:
+        s.cls("non-reversible")
+    if case.get("expm"):
+        s.cls("expm:" + case["expm"])
+    s.cls("ArrayAlignment" if case["array_align"] else "Alignment")
+    s.nontrivial = bool(unequal_pi and (degenerate or poly or bins or nonrev))
+    s.evals = max(1, evals)
+    return s
+
+
 SUBS = [
     Sub("nuc", execute, strategy=lambda tier: _general_case("nuc", big=(tier == "thorough")), quick=1100, thorough=16 * 1500, shards_quick=16, weight=1.0),
     Sub("dinuc", execute, strategy=_general_case("dinuc"), quick=240, thorough=16 * 300, shards_quick=8, weight=2.0),
@@ -1265,6 +1585,7 @@ SUBS = [
     Sub("protein", execute, strategy=_general_case("protein"), quick=96, thorough=16 * 100, shards_quick=8, weight=2.0),
     Sub("norm", execute, strategy=_general_case("nuc", allcols=True), quick=240, thorough=16 * 200, shards_quick=8, weight=1.0),
     Sub("normw", execute, strategy=_general_case(["dinuc", "dinuc", "protein", "protein", "codon"], allcols=True), quick=64, thorough=16 * 60, shards_quick=8, weight=4.0),
+    Sub("bigtree", execute_big, strategy=_big_case, quick=24, thorough=16 * 20, shards_quick=12, weight=40.0),
 ]
 
 KNOWN_PREDICATES = {}
@@ -1275,9 +1596,10 @@ META = {
     "the harness, scipy expm, Felsenstein pruning with multifurcations and ambiguity sets, bin mixtures) written in the check",
     "level_text": "Each run builds several hundred likelihood functions over every registered continuous-time model, codon models under seven genetic codes, and generated "
     "nucleotide / dinucleotide / codon / protein predicate models, and compares parameter names, every edge's calibrated rate matrix and substitution matrix, every column "
-    "likelihood and lnL with the harness computation (lnL at 1e-9 relative); all possible columns of small trees (4, 16, 20 and 60-64 states) must have likelihoods summing to one.",
+    "likelihood and lnL with the harness computation (lnL at 1e-9 relative); all possible columns of small trees (4, 16, 20 and 60-64 states) must have likelihoods summing to one; "
+    "two dozen trees of 150-900 tips (nucleotide and protein models, plain and gamma bins) are compared with a log-domain pruning that does not underflow.",
     "level_note": "Trusts the harness oracle (about 300 lines), the pinned NCBI code strings and scipy's expm / gamma quantiles. Bounded to 6 tips (40 for nucleotide models in "
-    "the thorough tier) and 15 columns; empirical protein exchangeabilities are taken as data from the library; time-heterogeneous motif probabilities, discrete-time "
+    "the thorough tier) and 15 columns, except for the bigtree sub-check (regular recipe-built trees of 150-1500 tips, registered nucleotide / protein models, 1-4 columns); empirical protein exchangeabilities are taken as data from the library; time-heterogeneous motif probabilities, discrete-time "
     "edges, the site-HMM (sites_independent=False), partitioned_params other than the ordered one, trinucleotide models and new-type alignments (unreachable at this commit) "
     "are not generated.",
     "design_ref": "DESIGN.md section 1, C02",
